@@ -20,6 +20,14 @@
 #include <unordered_set>
 #include <vector>
 
+// A check can be compiled in parts (-DVF_PART=k, one numeric type each) so that the parts build in
+// parallel; without the define everything is compiled into one binary.
+#ifdef VF_PART
+#define VF_PART_ENABLED(k) (VF_PART == (k))
+#else
+#define VF_PART_ENABLED(k) 1
+#endif
+
 namespace vf
 {
 
